@@ -215,14 +215,23 @@ class SimIO(tch.ChannelIO):
         self.cuts = []
         self.pieces = []
         self.tx = bytearray()
+        self.wmax = None
+        self._short = False
         self._closed = False
 
     def write(self, buf):
         buf = bytes(buf)
+        given = len(buf)
+        if self.wmax is not None:
+            buf = buf[: max(1, self.wmax())]       # a transport may take fewer bytes than it is given
+        cont, self._short = self._short, len(buf) < given
         self.tx += buf
         ans = self.con.feed(buf)
         if ans:
-            self.segs.append(bytearray(ans))
+            if cont and self.segs:
+                self.segs[-1] += ans               # the rest of a write that was taken in parts: one answer
+            else:
+                self.segs.append(bytearray(ans))
         return len(buf)
 
     def read(self, n, timeout=None):
